@@ -13,6 +13,10 @@ var specs = map[string]*Spec{}
 func register(s *Spec) { specs[s.ID] = s }
 
 func main() {
+	if len(os.Args) == 4 && os.Args[1] == "pdom" {
+		debugPdom(os.Args[2], os.Args[3])
+		return
+	}
 	if len(os.Args) < 3 || os.Args[1] != "check" {
 		fmt.Println("usage: gosym check <property-id> [quick|thorough]")
 		var ids []string
